@@ -28,6 +28,11 @@ pub enum Role {
     Listener,
     /// one end of an established connection; `mate` = label of the other end
     Stream { peer: SocketAddr, mate: u32 },
+    /// client socket of a connect whose handshake is still in flight
+    Half { peer: SocketAddr },
+    /// half-open child created by a SYN that reached `listener`; it lives and
+    /// dies with that listener until the handshake completes
+    HalfChild { listener: u32 },
 }
 
 #[derive(Clone, Debug)]
@@ -50,6 +55,9 @@ pub enum Op {
     Bind { id: u32, host: usize, proto: Proto, addr: IpAddr, port: u16 },
     UdpConnect { sock: u32, to: SocketAddr },
     TcpConnect { id: u32, host: usize, to: SocketAddr },
+    /// start a connect and deliver only its SYN; the handshake is completed
+    /// ("resolved") before the next op that moves packets
+    HalfOpen { id: u32, host: usize, to: SocketAddr },
     Close { sock: u32, server_first: bool },
 }
 
@@ -61,6 +69,7 @@ impl Op {
             }
             Op::UdpConnect { sock, to } => json!({"op":"uconn","sock":sock,"to":to.to_string()}),
             Op::TcpConnect { id, host, to } => json!({"op":"tconn","id":id,"host":host,"to":to.to_string()}),
+            Op::HalfOpen { id, host, to } => json!({"op":"thalf","id":id,"host":host,"to":to.to_string()}),
             Op::Close { sock, server_first } => json!({"op":"close","sock":sock,"server_first":server_first}),
         }
     }
@@ -79,6 +88,11 @@ impl Op {
                 to: v["to"].as_str()?.parse().ok()?,
             },
             "tconn" => Op::TcpConnect {
+                id: u("id")? as u32,
+                host: u("host")? as usize,
+                to: v["to"].as_str()?.parse().ok()?,
+            },
+            "thalf" => Op::HalfOpen {
                 id: u("id")? as u32,
                 host: u("host")? as usize,
                 to: v["to"].as_str()?.parse().ok()?,
@@ -179,6 +193,11 @@ impl History {
                     let n = labels.len();
                     let l = labels.entry(*id).or_insert_with(|| format!("s{n}")).clone();
                     out.push(format!("{l}=tconn(h{host},{}:{})", an(&to.ip()), pn(to.port())));
+                }
+                Op::HalfOpen { id, host, to } => {
+                    let n = labels.len();
+                    let l = labels.entry(*id).or_insert_with(|| format!("s{n}")).clone();
+                    out.push(format!("{l}=thalf(h{host},{}:{})", an(&to.ip()), pn(to.port())));
                 }
                 Op::Close { sock, .. } => {
                     let l = labels.get(sock).cloned().unwrap_or("s?".into());
@@ -282,7 +301,10 @@ impl Model {
         for s in &mine {
             keys.insert((s.proto, s.addr, s.port));
         }
-        let conns = mine.iter().filter(|s| matches!(s.role, Role::Stream { .. })).count();
+        let conns = mine
+            .iter()
+            .filter(|s| matches!(s.role, Role::Stream { .. } | Role::Half { .. } | Role::HalfChild { .. }))
+            .count();
         (mine.len(), keys.len(), mine.len(), conns)
     }
 }
